@@ -117,7 +117,7 @@ func randomConnected(r *rand.Rand, n int) [][2]int {
 }
 
 type c18Fault struct {
-	Kind string // remove-link, remove-router, add-link
+	Kind string // remove-link, remove-router, add-link, isolate-router
 	A, B int
 }
 
@@ -179,6 +179,31 @@ func c18Execute(c *h.Ctx, id string, cs c18Case, schedSeed int64, profile string
 					}
 				}
 			}
+		case "isolate-router":
+			if !s.nodes[f.A].alive {
+				continue
+			}
+			var nbrs []int
+			for v := range s.nodes {
+				if s.link(f.A, v) {
+					nbrs = append(nbrs, v)
+					s.setLink(f.A, v, false)
+				}
+			}
+			if len(nbrs) == 0 {
+				continue
+			}
+			if !s.expireMany(f.A, nbrs) {
+				c.Inconclusive(s.bad)
+				return nil
+			}
+			for _, v := range nbrs {
+				if s.nodes[v].alive && !s.expire(v, f.A) {
+					c.Inconclusive(s.bad)
+					return nil
+				}
+			}
+			c.Count("sweeps_removing_several_neighbours", int64(len(nbrs)/2))
 		case "add-link":
 			if !s.nodes[f.A].alive || !s.nodes[f.B].alive || s.link(f.A, f.B) {
 				continue
@@ -328,7 +353,17 @@ func c18Faults(r *rand.Rand, n int, edges [][2]int, k int) []c18Fault {
 	var fs []c18Fault
 	cur := append([][2]int{}, edges...)
 	for i := 0; i < k; i++ {
-		switch r.Intn(4) {
+		switch r.Intn(5) {
+		case 4: // a live router loses all its links at once: one dead-neighbour sweep removes several neighbours
+			a := r.Intn(n)
+			fs = append(fs, c18Fault{Kind: "isolate-router", A: a})
+			var keep [][2]int
+			for _, e := range cur {
+				if e[0] != a && e[1] != a {
+					keep = append(keep, e)
+				}
+			}
+			cur = keep
 		case 0, 1:
 			if len(cur) > 0 {
 				j := r.Intn(len(cur))
